@@ -242,7 +242,12 @@ def main():
     os.makedirs(work)
     replays = os.path.join(VERIF, "replays")
     os.makedirs(replays, exist_ok=True)
-    os.makedirs(os.path.join(VERIF, "evidence"), exist_ok=True)
+    for f in os.listdir(replays):  # replays of an earlier run of this check and tier are stale now
+        if f.startswith("%s-%s-" % (pid, tier)) and f.endswith(".json"):
+            os.remove(os.path.join(replays, f))
+    # evidence describes /repo; a run against a scratch tree (VERIF_REPO, used for seeded changes) writes elsewhere
+    evdir = os.path.join(VERIF, "evidence") if REPO == "/repo" else os.path.join(BUILD, "evidence-scratch")
+    os.makedirs(evdir, exist_ok=True)
 
     tie_errors = []      # (what, message)  -> broken tie / correspondence, no concrete input by themselves
     lockf = open(os.path.join(BUILD, ".lock"), "w")
@@ -441,7 +446,7 @@ def main():
     for k, v in meta.items():
         if k not in ("histogram", "cases", "exhaustive", "exhaustive_note", "exhaustive_all"):
             ev["coverage"]["harness_" + k] = v
-    json.dump(ev, open(os.path.join(VERIF, "evidence", pid + ".json"), "w"), indent=1)
+    json.dump(ev, open(os.path.join(evdir, pid + ".json"), "w"), indent=1)
     for l in out_lines:
         print(l)
     log("%s %s: obligations %d/%d, cases %d, disagreements %d, spec failures %d, tie errors %d, %.1fs" % (
